@@ -213,7 +213,32 @@ def run_e1(prop, tier, seed, tasks=None, fn="vf.e1:run_task", level_note=None):
             print(f"[{prop}] {done}/{total} done, {time.time()-t0:.0f}s", flush=True)
 
     results = pool.run_tasks(fn, tasks, workers=min(15, os.cpu_count() or 2), task_timeout=100 if tier == "quick" else 900, progress=progress)
-    return finish_e1(prop, tier, seed, tasks, results, known, t0)
+    st, harness = selftest(prop, tier, seed, results)
+    return finish_e1(prop, tier, seed, tasks, results, known, t0, extra_cov={"encoder_selftest": st}, extra_harness=harness)
+
+
+def selftest(prop, tier, seed, results):
+    """encoder validation against clingo, sabotage twins and second solvers on a seeded sample of the decided pairs"""
+    rnd = random.Random(seed * 7919 + 13)
+    cands = [r for r in results if r.get("status") == "held" and r.get("changed") and r.get("source") and r.get("result") and r.get("decided")
+             and not r.get("source_program") and (r["decided"][0].get("sizes", {}).get("A", {}).get("rules", 9999) < 800)]
+    rnd.shuffle(cands)
+    n = 8 if tier == "quick" else 60
+    ts = [{"id": r.get("id"), "source": r["source"], "result": r["result"], "in": r["in"], "V": r["V"], "universe": r["decided"][0]["universe"], "seed": seed + i}
+          for i, r in enumerate(cands[:n])]
+    if not ts:
+        return {"pairs": 0}, []
+    out = pool.run_tasks("vf.selftest:run_task", ts, workers=min(8, len(ts)), task_timeout=150)
+    problems = [dict(p, id=o.get("id")) for o in out for p in o.get("problems", [])]
+    tw = {}
+    for o in out:
+        for t in o.get("twins", []):
+            tw[t["status"]] = tw.get(t["status"], 0) + 1
+    summary = {"pairs": len(ts), "encoder_validation_instances(clingo vs SMT enumeration)": sum(o.get("encoder_instances", 0) for o in out),
+               "sabotage_twins": tw, "second_solver_checks": sum(1 for o in out if o.get("second_solvers")),
+               "problems": problems[:5], "skipped_or_timed_out": sum(1 for o in out if o.get("status") != "done")}
+    harness = [{"id": p.get("id"), "reason": "encoder self-test: " + p["what"] + " " + str({k: v for k, v in p.items() if k not in ("what", "id")})[:300]} for p in problems]
+    return summary, harness
 
 
 def finish_e1(prop, tier, seed, tasks, results, known, t0, extra_cov=None, extra_violations=(), extra_harness=()):
